@@ -114,6 +114,11 @@ func loadModule(name, dir, goos, goarch string, minPkgs int) *Module {
 			pkgs, overlay = pkgs2, next
 			ist.Rounds = round
 		}
+		if os.Getenv("VERIF_INLINE_DEBUG") == "2" {
+			for k, v := range overlay {
+				os.WriteFile("/tmp/inline_final_"+strings.ReplaceAll(strings.TrimPrefix(k, dir+"/"), "/", "_"), v, 0o644)
+			}
+		}
 		if ist.Sites > 0 || ist.Note != "" {
 			fmt.Printf("normalisation (%s): %d call site(s) of new helper(s) %v expanded in %d round(s); left as calls: %v %s\n", name, ist.Sites, ist.Helpers, ist.Rounds, ist.Left, ist.Note)
 		}
